@@ -146,6 +146,23 @@ def mesh_level(ctx, expected):
         if np.abs(c2 - cexp).max() > 1e-10 * np.abs(cexp).max():
             ctx.violation(f"mesh-recoordinated-center/{et}", f"centroid of the re-coordinated {size} box meshed with {et} is {c2}, exact {cexp}", {"elem": str(et)})
         ctx.count(1, distinct_key=("mesh-recoordinated", str(et)))
+        # placement and unit of length (the scaling law of the measure is the one Pipeline.tla states and TLC checks): the re-coordinated
+        # mesh - general straight-sided elements - far from the origin, then written in a unit 1e9 times larger. Measures, sizes and the
+        # integral of 1 are compared at 1e-7 (far from the origin every coordinate difference has lost seven digits)
+        meas_ref = factor * exm
+        for label, fn, kpow in (("far", lambda X: X + np.array([5.0e5, 4.5e6, 0.0]), 0), ("unit1e-9", lambda X: X * 1e-9, 1)):
+            with quiet():
+                mesh.coord = fn(mesh.coord)
+            k = (1e-9 ** dim) if kpow else 1.0
+            meas3 = mesh.length if dim == 1 else mesh.area if dim == 2 else mesh.volume
+            sizes3 = sum(float(np.sum(getattr(g, {1: "length_e", 2: "area_e", 3: "volume_e"}[dim]))) for g in mesh.Get_list_groupElem(dim))
+            int3 = sum(float(np.sum(g.Integrate_e(lambda x, y, z: 1.0 + 0 * x, MatrixType.mass))) for g in mesh.Get_list_groupElem(dim))
+            int3r = sum(float(np.sum(g.Integrate_e(lambda x, y, z: 1.0 + 0 * x, MatrixType.rigi))) for g in mesh.Get_list_groupElem(dim))
+            for what, val in (("measure", meas3), ("element sizes", sizes3), ("integral of 1 (mass rule)", int3), ("integral of 1 (stiffness rule)", int3r)):
+                if not abs(val - k * meas_ref) <= 1e-7 * k * meas_ref:
+                    ctx.violation(f"mesh-placed/{label}/{et}", f"{what} of the re-coordinated {size} box meshed with {et}, {'translated by (5e5, 4.5e6)' if label == 'far' else 'then written in a unit 1e9 times larger'}, is {val}, exact {k * meas_ref}", {"elem": str(et), "what": what, "placement": label})
+                    break
+            ctx.count(1, distinct_key=("mesh-placed", label, str(et)))
 
 
 def mesh_level_rules(ctx, measured):
